@@ -1046,6 +1046,15 @@ class Controller:
             )
         )
 
+    def is_cig_active(self, cig_id: int) -> bool:
+        '''
+        A CIG is active while one of its CISes is established or being established.
+        '''
+        return any(
+            cis_link.cig_id == cig_id and cis_link.acl_connection is not None
+            for cis_link in self.central_cis_links.values()
+        )
+
     def on_le_cis_disconnected(self, cig_id: int, cis_id: int) -> None:
         '''
         Called when a CIS disconnected.
@@ -2886,6 +2895,14 @@ class Controller:
         See Bluetooth spec Vol 4, Part E - 7.8.97 LE Set CIG Parameter Command
         '''
 
+        # A CIG can only be changed while none of its CISes is (being) established
+        if self.is_cig_active(command.cig_id):
+            return hci.HCI_LE_Set_CIG_Parameters_ReturnParameters(
+                status=hci.HCI_ErrorCode.COMMAND_DISALLOWED_ERROR,
+                cig_id=command.cig_id,
+                connection_handle=[],
+            )
+
         # Remove old CIG implicitly.
         cis_links = list(self.central_cis_links.items())
         for handle, cis_link in cis_links:
@@ -2916,6 +2933,19 @@ class Controller:
         if not self.link:
             return None
 
+        # Only one LE Create CIS at a time: every CIS of the previous one must have
+        # been concluded by an LE CIS Established event
+        if any(
+            cis_link.acl_connection is not None and not cis_link.established
+            for cis_link in self.central_cis_links.values()
+        ):
+            self._send_hci_command_status(
+                hci.HCI_ErrorCode.COMMAND_DISALLOWED_ERROR, command.op_code
+            )
+            return
+
+        # Check all the parameters before any CIS is requested
+        requests: list[tuple[CisLink, Connection]] = []
         for cis_handle, acl_handle in zip(
             command.cis_connection_handle, command.acl_connection_handle
         ):
@@ -2933,12 +2963,14 @@ class Controller:
                 )
                 return
 
-            cis_link.acl_connection = connection
-            cis_link.established = False
+            requests.append((cis_link, connection))
 
+        for cis_link, connection in requests:
             connection.send_ll_control_pdu(
                 ll.CisReq(cig_id=cis_link.cig_id, cis_id=cis_link.cis_id)
             )
+            cis_link.acl_connection = connection
+            cis_link.established = False
 
         self._send_hci_command_status(hci.HCI_COMMAND_STATUS_PENDING, command.op_code)
 
@@ -2948,6 +2980,12 @@ class Controller:
         '''
         See Bluetooth spec Vol 4, Part E - 7.8.100 LE Remove CIG Command
         '''
+
+        # A CIG can only be removed while none of its CISes is (being) established
+        if self.is_cig_active(command.cig_id):
+            return hci.HCI_LE_Remove_CIG_ReturnParameters(
+                hci.HCI_ErrorCode.COMMAND_DISALLOWED_ERROR, command.cig_id
+            )
 
         status = hci.HCI_ErrorCode.INVALID_COMMAND_PARAMETERS_ERROR
 
